@@ -419,6 +419,18 @@ def fixed_scenarios(prop):
         out.append({"id": "fixed-wraps-pair", "type": "sig", "params": pw[1], "ignore": [], "compress": False,
                     "versions": V, "events": ev})
     if prop == "C12":
+        # hot reload into a long-lived MemorizedFunc: edit in place (same first line), install the new code object,
+        # call with an argument cached before -> must recompute; an equal code object -> may hit
+        V = {"1": {"tag": "v1", "path": "verifmod.py", "pad": 0, "kind": "def", "text": 1},
+             "2": {"tag": "v2", "path": "verifmod.py", "pad": 0, "kind": "def", "text": 2}}
+        out.append({"id": "fixed-hot-reload", "type": "c12", "params": [["x", "pk", None]], "ignore": [],
+                    "compress": False, "versions": V, "mode": "same",
+                    "events": [["define", 1], ["wrap", 1], _c(1), _c(1), _c(1, 1), ["hotreload", 1, 2],
+                               _c(2), _c(2), _c(2, 1), ["recode", 2], _c(2)]})
+        # every physical line of a multi-line body edited in turn, across fresh processes / in process
+        import random as _r
+        out.append(gen_edit_scenario(_r.Random(1), "fixed-edit-every-line-a", slots=[0, 1, 2, 3]))
+        out.append(gen_edit_scenario(_r.Random(2), "fixed-edit-every-line-b", slots=[4, 5, 6, 7]))
         # (c) source-less functions (exec'd text): an edit that changes only a literal, in process and across
         #     fresh processes
         V = {str(k): {"tag": "v%d" % k, "path": "nosrc.py", "pad": 0, "kind": "sourceless", "text": k} for k in (1, 2)}
@@ -465,7 +477,7 @@ def gen_c12_scenario(rng, sid):
     sc = {"id": sid, "type": "c12", "params": [["x", "pk", None]], "ignore": [], "compress": False,
           "versions": versions, "mode": mode}
     events = []
-    live, wrapped = set(), set()
+    live, wrapped, reloaded, recoded = set(), set(), set(), set()
     careful = rng.random() < 0.5     # careful scenarios never use an object the monitor would refuse
     called_text = None
     stale = set()
@@ -492,8 +504,41 @@ def gen_c12_scenario(rng, sid):
             events.append(["wrap", k])
         elif r < 0.31:
             events.append(["clearmem"])
+        elif r < 0.40 and kind != "sourceless":
+            # hot reload: the file of a live object is edited in place and the new code object is installed into
+            # the existing function object (each object at most once, never back to a text it had)
+            cand = [k for k in sorted(live) if k not in reloaded and k not in recoded and k in wrapped]
+            texts = sorted({v["text"] for v in versions.values()})
+            if cand and len(texts) > 1:
+                k = rng.choice(cand)
+                t2 = rng.choice([t for t in texts if t != versions[str(k)]["text"]])
+                k2 = max(int(x) for x in versions) + 1
+                versions[str(k2)] = dict(versions[str(k)], tag="v%d" % t2, text=t2)
+                events.append(["hotreload", k, k2])
+                reloaded.update([k, k2])
+                live.discard(k)
+                wrapped.discard(k)
+                for j in list(live):
+                    if versions[str(j)]["path"] == versions[str(k2)]["path"] and versions[str(j)]["text"] != t2:
+                        stale.add(j)
+                live.add(k2)
+                wrapped.add(k2)
+        elif r < 0.42 and mode == "own" and kind != "sourceless":
+            # (never BEFORE a hot reload of the same object: func_code_info remembers id(code) of the first code
+            # object for ever, and a later edited code object may recycle that address -- see design.d, F18)
+            k = rng.choice(sorted(live))
+            recoded.add(k)
+            events.append(["recode", k])
         else:
-            cand = sorted(live)
+            # a hot-reloaded object re-reads its source file at EVERY slow-path check (the id remembered by
+            # func_code_info never matches again) whereas the model caches the text: the two differ only once the
+            # file has been overwritten by other text, so such (stale) objects are not called
+            cand = [k for k in sorted(live) if not (k in reloaded and k in stale)]
+            if not cand:
+                events.append(["newprocess"])
+                live, wrapped, stale, called_text = set(), set(), set(), None
+                reloaded, recoded = set(), set()
+                continue
             if careful:
                 cand = [k for k in cand if k not in stale and
                         (called_text is None or versions[str(k)]["text"] == called_text or
@@ -511,6 +556,63 @@ def gen_c12_scenario(rng, sid):
                 events += [["shelve", k, cs, True], ["get", nref]]
             events.append(["call", k, cs, True])
             called_text = versions[str(k)]["text"]
+    sc["events"] = events
+    return sc
+
+
+N_SLOTS = 8
+BASE_SLOTS = [1, 2, 3, 4, 5, 6, 7, 25]
+
+
+def gen_edit_scenario(rng, sid, slots=None):
+    """position-aware edits of ONE function in ONE file: the base text and, for each chosen physical line of the
+    body, a version that differs in exactly that line.  Each step installs one version (fresh process + import,
+    in-process re-import, or hot reload into the existing function object) and calls it with arguments cached
+    before: every semantic edit must be a miss, an unchanged text a hit."""
+    slots = slots if slots is not None else rng.sample(range(N_SLOTS), rng.randint(2, 4))
+    versions = {"1": {"tag": "vm", "path": "verifmod.py", "pad": 0, "kind": "def", "text": 1,
+                      "slots": list(BASE_SLOTS)}}
+    texts = {1: list(BASE_SLOTS)}
+    for n, sl in enumerate(slots):
+        v = list(BASE_SLOTS)
+        v[sl] += 1
+        texts[2 + sl] = v
+    sc = {"id": sid, "type": "c12", "params": [["x", "pk", None]], "ignore": [], "compress": False,
+          "versions": versions, "mode": "same"}
+
+    def new_object(text):
+        k = max(int(x) for x in versions) + 1 if text != 1 or "1" in used else 1
+        versions[str(k)] = {"tag": "vm", "path": "verifmod.py", "pad": 0, "kind": "def", "text": text,
+                            "slots": texts[text]}
+        used.add(str(k))
+        return k
+    used = set()
+    events = []
+    order = [1] + [2 + sl for sl in slots]
+    extra = [rng.choice(order) for _ in range(rng.randint(1, 3))]
+    cur = None
+    reloaded = False
+    for step, text in enumerate(order + extra):
+        how = "first" if cur is None else rng.choice(["process", "process", "reimport", "hotreload"])
+        if how == "hotreload" and (reloaded or versions[str(cur)]["text"] == text):
+            how = "process"
+        if how == "process":
+            events.append(["newprocess"])
+            reloaded = False
+        if how == "hotreload":
+            k = new_object(text)
+            events.append(["hotreload", cur, k])
+            reloaded = True
+        else:
+            k = new_object(text)
+            events += [["define", k], ["wrap", k]]
+            if how == "reimport":
+                reloaded = False
+        cur = k
+        for a in rng.sample([0, 1, 0], rng.randint(1, 3)):
+            if rng.random() < 0.3:
+                events.append(["check", k, {"pos": [I(a)], "kw": []}, True])
+            events.append(_c(k, a))
     sc["events"] = events
     return sc
 
@@ -589,7 +691,12 @@ def monitor(sc, classify=False):
     live, wraps, stale, called, cur = [], [], [], [], None
     for i, ev in enumerate(sc["events"]):
         t = ev[0]
-        if t == "define":
+        if t == "hotreload":
+            # model: the reloaded object is a NEW object index (text of ev[2], file of ev[1]) with a fresh
+            # wrapper state: the stored hash in _FUNCTION_HASHES no longer matches and func_code_info is re-read
+            ev = ["define", ev[2]]
+            t = "define+wrap"
+        if t in ("define", "define+wrap"):
             j = ev[1]
             others = [k for k in live if k != j]
             new_stale = [k for k in others if vpath(k, V[str(k)]) == vpath(j, V[str(j)])
@@ -598,6 +705,8 @@ def monitor(sc, classify=False):
             live = [j] + others
             wraps = [k for k in wraps if k != j]
             called = [k for k in called if k != j]
+            if t == "define+wrap":
+                wraps = [j] + wraps
         elif t == "wrap":
             if ev[1] in live:
                 wraps = [ev[1]] + [k for k in wraps if k != ev[1]]
@@ -808,7 +917,11 @@ def model_terms(sc, res):
         t = ev[0]
         if "harness_error" in r:
             return None
-        if t == "define":
+        if t == "hotreload":
+            hist.append("Define %d; Wrap %d" % (ev[2], ev[2]))
+        elif t == "recode":
+            hist.append("Get 999999")     # no model event: an equal code object changes nothing (model: OSkip)
+        elif t == "define":
             hist.append("Define %d" % ev[1])
         elif t == "wrap":
             hist.append("Wrap %d" % ev[1])
@@ -857,7 +970,9 @@ def impl_view(sc, res, tables):
             val[r["expect"]] = (src, rbindc[r["expect"]])
     for ev, r in zip(sc["events"], res["events"]):
         t = ev[0]
-        if r.get("o") == "skip":
+        if t == "hotreload":
+            out += [(1, 0, 0), (1, 0, 0)]
+        elif r.get("o") == "skip":
             out.append((0, 0, 0))
         elif t in ("define", "wrap", "clearref", "clearfunc", "clearmem", "evict", "newprocess"):
             out.append((1, 0, 0))
@@ -996,7 +1111,8 @@ def gen_for(ctx, prop, n=None):
     quick = ctx.tier == "quick"
     if prop == "C12":
         n = n or (260 if quick else 2500)
-        return [W_F10, W_SAME] + fixed_scenarios(prop) + [gen_c12_scenario(rng, i) for i in range(n)]
+        return ([W_F10, W_SAME] + fixed_scenarios(prop) + [gen_c12_scenario(rng, i) for i in range(n)]
+                + [gen_edit_scenario(rng, "edit-%d" % i) for i in range(60 if quick else 600)])
     sigs3 = enum_signatures(3)
     sigs = enum_signatures(4 if quick else 5)
     n = n or (230 if quick else 3000)
